@@ -21,38 +21,55 @@ INCLUDES = {
     # shim (C02) and the hand-over of already-read bytes at the TLS switch (C18) are on that path
     "C01": [("C02", ALL), ("C18", ["C18.tail-handoff", "C18.ownership", "C18.variant-delegation"])],
     # a delivered command presupposes a faithful reader
-    "C02": [("C01", ALL)],
+    # ... under TLS, read delegation of the transport wrappers; and the statement registry decides whether an EXECUTE / CLOSE the
+    # client was entitled to send reaches its callback at all (C10)
+    "C02": [("C01", ALL), XPORT_W, ("C10", ALL)],
     # a response a conformant decoder accepts: its header (C09) and the wire layer
-    "C03": [("C09", ALL)] + WIRE,
-    "C04": [XPORT_W],
+    # ... plus: a command the parser wrongly refuses gets no response at all (PARSERS); the handshake's own replies (C11.gate)
+    # ... a binary row a decoder accepts has the right bitmap length and header (C07); "emits" includes the flush (C12)
+    "C03": [("C09", ALL), PARSERS, ("C11", ["C11.gate"]), ("C07", ["C07.bitmap-arith", "C07.row-prefix"]),
+            ("C12", ["C12.clean-at-read", "C12.flush-is-complete"]), ("C06", ["C06.one-cell", "C06.row-boundary"])] + WIRE,   # and text rows made of well-formed cells
+    # ... and the writer of a message ends it whatever the buffer looks like: a row that filled its last packet exactly still
+    # needs its (empty) terminator, which only end_row -> end_packet sends (C13's rule on finish_inner ending a pending row)
+    "C04": [XPORT_W, ("C13", ["C13.err-on-packet-boundary"])],
     "C05": [("C04", ALL), XPORT_W],
     # rows arrive unchanged only behind a correct resultset header and wire layer
     "C06": [("C09", ALL)] + WIRE,
-    "C07": [("C09", ALL)] + WIRE,
+    # C07 also: integer cells of a binary row (C15's exact-or-refused) — the row is "decoded to exactly the values written"
+    "C07": [("C09", ALL), ("C15", ["C15.exact-or-refused", "C15.completeness"])] + WIRE,
     # parameters: type table (C16), long data (C17), statement registry (C10), command parsers, reassembly of the payload (C01)
     "C08": [("C16", ALL), ("C17", ALL), ("C10", ALL), PARSERS, ("C01", ALL)],
     "C09": WIRE,
     # statement ids are what the command parsers deliver
-    "C10": [PARSERS],
+    # ... a framing bug that splits one message into two manufactures commands (a phantom CLOSE); "CLOSE produces no reply": no
+    # stray terminator packet may be pending when the flush after a reply-less command runs (C04.empty-terminator)
+    "C10": [PARSERS, ("C01", ALL), ("C04", ["C04.empty-terminator"])],
     # the OK / ERR that end the handshake must be flushed and carry the next sequence id in a well-formed packet
-    "C11": [("C12", ["C12.flush-is-complete"])] + WIRE,
+    # ... and the ERR that answers a rejected login has the ERR layout (code, '#', SQLSTATE, message) whatever the client announced
+    # ... the handshake response is read through the same reader as every command (C01)
+    "C11": [("C12", ["C12.flush-is-complete"]), ("C13", ["C13.err-layout"]), ("C01", ALL)] + WIRE,
     # "already been answered": every command's reply is complete (reply per command, list terminators) before the server waits again
-    "C12": [("C03", ["C03.reply-effects"]), ("C09", ["C09.eof-policy", "C09.count-packet"]), XPORT_W],
-    "C13": WIRE,
+    # ... including the terminator a dropped writer still owes (C03.drop-finalises / finalize-first)
+    "C12": [("C03", ["C03.reply-effects", "C03.drop-finalises", "C03.finalize-first"]), ("C09", ["C09.eof-policy", "C09.count-packet"]), XPORT_W],
+    "C13": [("C12", ["C12.clean-at-read", "C12.flush-is-complete"])] + WIRE,   # "reaches the client": written AND flushed
     # a completion is attributed to its command only if every command gets exactly one response
-    "C14": [("C03", ["C03.reply-effects"])] + WIRE,
+    "C14": [("C03", ["C03.reply-effects"]), ("C11", ["C11.gate"])] + WIRE,     # incl. the handshake: exactly one reply to the login
     # what the client decodes depends on the announced column (C09) and on where the value sits in the row (bitmap length, header)
-    "C15": [("C09", ALL), ("C07", ["C07.bitmap-arith", "C07.row-prefix"])],
+    "C15": [("C09", ALL), ("C07", ["C07.bitmap-arith", "C07.row-prefix"])] + WIRE,   # a fixed-width integer behind a 16 MiB cell sits where the framing puts it
     # per-statement state: the registry entry's life cycle (C10) and the parsers that delimit the parameter block / long data
-    "C16": [("C10", ALL), PARSERS],
-    "C17": [("C10", ALL), PARSERS],
+    # ... the reassembled payload (C01) and the decoder honouring the (type, unsigned) pair it is given (C08.value-layouts)
+    "C16": [("C10", ALL), PARSERS, ("C01", ALL), ("C08", ["C08.value-layouts"])],
+    "C17": [("C10", ALL), PARSERS, ("C01", ALL)],
     # the encrypted handshake response is parsed by the handshake parser; everything after the switch uses the wire layer
-    "C18": [("C11", ["C11.response-layout", "C11.username-flow"])] + WIRE,
+    # ... "however the transport coalesces or splits the SSL request and the following TLS records across reads": the reader (C01)
+    "C18": [("C11", ["C11.response-layout", "C11.username-flow"]), ("C01", ALL)] + WIRE,
     # the flush that reports a deferred error is C12's
-    "C19": [("C12", ALL)],
+    # ... Ok "exactly when the client quits": which command bytes mean Quit is the parser's byte table
+    "C19": [("C12", ALL), ("C02", ["C02.byte-table"])],
     # the parameter iterator unwraps the value parser's result (a known finding): every input the value parser refuses is a crash,
     # so the set it accepts is part of this property until that finding is repaired
-    "C20": [("C08", ["C08.value-layouts"])],
+    # ... and the parameter count the iterator slices by is the registry's, which must be the one announced (C10)
+    "C20": [("C08", ["C08.value-layouts"]), ("C10", ["C10.registry-ownership", "C10.fresh-on-prepare"])],
 }
 
 
